@@ -128,3 +128,107 @@ pub proof fn lemma_permutation_keeps_clauses(v: Seq<PathBuf>, w: Seq<PathBuf>, e
         }
     }
 }
+
+// ==== misc_helpers::get_files / misc_helpers::search_files (the listings the event-directory cap and the rule-dump pruning use) ====
+/// the text `misc_helpers::get_file_name(path)` returns for a path (derived from its body, which is proved against it): the last
+/// component (`Path::file_name`, uninterpreted `path_file_name`) as text when there is one and it is valid Unicode, the literal
+/// "InvalidPath" otherwise
+pub open spec fn file_name_text(path: PathBuf) -> Seq<char> {
+    match path_file_name(path) {
+        Some(Some(t)) => t,
+        _ => "InvalidPath"@,
+    }
+}
+/// `regex::bytes::Regex::is_match(haystack)` of the regex compiled from `pattern`: uninterpreted
+pub uninterp spec fn regex_matches(pattern: Seq<char>, haystack: Seq<u8>) -> bool;
+/// "the regex matches the file name": `Regex::is_match` on the bytes (UTF-8 encoding, vstd's model) of `get_file_name(path)`
+pub open spec fn file_name_matches(pattern: Seq<char>, path: PathBuf) -> bool {
+    regex_matches(pattern, vstd::utf8::encode_utf8(file_name_text(path)))
+}
+
+/// which entries a listing function selects
+pub ghost enum Selection {
+    /// get_files: the entry is a regular file
+    RegularFiles,
+    /// search_files(dir, pattern): the entry is a regular file AND the regex matches its file name
+    MatchingRegularFiles(Seq<char>),
+}
+
+pub open spec fn selects(s: Selection, e: DirEnt) -> bool {
+    match s {
+        Selection::RegularFiles => e.is_file,
+        Selection::MatchingRegularFiles(pattern) => e.is_file && file_name_matches(pattern, e.path),
+    }
+}
+
+// ---- written from the statement (shared by the two functions; the selection is the parameter) ----
+/// (complete) every selected entry is listed
+pub open spec fn lists_every(v: Seq<PathBuf>, es: Seq<DirEnt>, s: Selection) -> bool {
+    lists_every_upto(v, es, es.len() as int, s)
+}
+/// the same for the first `n` entries (loop invariant)
+pub open spec fn lists_every_upto(v: Seq<PathBuf>, es: Seq<DirEnt>, n: int, s: Selection) -> bool {
+    forall|i: int| 0 <= i < n && i < es.len() && selects(s, #[trigger] es[i]) ==> v.contains(es[i].path)
+}
+/// `p` is the path of a selected entry among the first `n`
+pub open spec fn listed_by(p: PathBuf, es: Seq<DirEnt>, n: int, s: Selection) -> bool {
+    exists|i: int| 0 <= i < n && i < es.len() && (#[trigger] es[i]).path == p && selects(s, es[i])
+}
+/// (sound) only paths of selected entries are listed
+pub open spec fn lists_only(v: Seq<PathBuf>, es: Seq<DirEnt>, s: Selection) -> bool {
+    lists_only_upto(v, es, es.len() as int, s)
+}
+/// the same with the entry among the first `n` (loop invariant)
+pub open spec fn lists_only_upto(v: Seq<PathBuf>, es: Seq<DirEnt>, n: int, s: Selection) -> bool {
+    forall|j: int| 0 <= j < v.len() ==> listed_by(#[trigger] v[j], es, n, s)
+}
+/// the paths of the selected entries, in directory order, one per selected entry (the selected subsequence)
+pub open spec fn paths_of(es: Seq<DirEnt>, s: Selection) -> Seq<PathBuf>
+    decreases es.len()
+{
+    if es.len() == 0 {
+        Seq::empty()
+    } else if selects(s, es.last()) {
+        paths_of(es.drop_last(), s).push(es.last().path)
+    } else {
+        paths_of(es.drop_last(), s)
+    }
+}
+/// (once) the result is a permutation of the selected subsequence: one element per selected entry
+pub open spec fn each_once_of(v: Seq<PathBuf>, es: Seq<DirEnt>, s: Selection) -> bool {
+    v.to_multiset() == paths_of(es, s).to_multiset()
+}
+
+// ---- lemmas ----
+pub proof fn lemma_paths_of_step(es: Seq<DirEnt>, k: int, s: Selection)
+    requires 0 <= k < es.len(),
+    ensures
+        selects(s, es[k]) ==> paths_of(es.take(k + 1), s) == paths_of(es.take(k), s).push(es[k].path),
+        !selects(s, es[k]) ==> paths_of(es.take(k + 1), s) == paths_of(es.take(k), s),
+{
+    assert(es.take(k + 1).drop_last() =~= es.take(k));
+    assert(es.take(k + 1).last() == es[k]);
+}
+
+/// a permutation `w` of `v` (what sort returns) satisfies the element-wise clauses `v` satisfies; stated as implications so that
+/// the call itself never fails
+pub proof fn lemma_permutation_keeps_lists(v: Seq<PathBuf>, w: Seq<PathBuf>, es: Seq<DirEnt>, s: Selection)
+    ensures
+        w.to_multiset() == v.to_multiset() && lists_every(v, es, s) ==> lists_every(w, es, s),
+        w.to_multiset() == v.to_multiset() && lists_only(v, es, s) ==> lists_only(w, es, s),
+{
+    v.to_multiset_ensures();
+    w.to_multiset_ensures();
+    if w.to_multiset() == v.to_multiset() {
+        assert forall|x: PathBuf| v.contains(x) implies w.contains(x) by { assert(v.to_multiset().count(x) > 0); }
+        assert forall|x: PathBuf| w.contains(x) implies v.contains(x) by { assert(w.to_multiset().count(x) > 0); }
+        if lists_only(v, es, s) {
+            assert forall|j: int| 0 <= j < w.len() implies listed_by(#[trigger] w[j], es, es.len() as int, s) by {
+                assert(w.contains(w[j]));
+                assert(v.contains(w[j]));
+                let jj = choose|jj: int| 0 <= jj < v.len() && v[jj] == w[j];
+                assert(listed_by(v[jj], es, es.len() as int, s));
+            }
+        }
+    }
+}
